@@ -112,7 +112,33 @@ pub fn scenario_list(spec: &PropSpec, tier: Tier) -> Vec<Scenario> {
     first
 }
 
+/// Called by the watchdog thread of a worker: report the hang as a verdict of the scenario being
+/// explored (replaying the recorded prefix, then the default choices, reproduces it) and leave.
+fn worker_hang(name: String, descr: String, prefix: Vec<crate::rt::Point>, order: crate::rt::Order, silent: u64) -> ! {
+    let rep = ScenarioReport {
+        name: name.clone(),
+        descr: descr.clone(),
+        capped: true,
+        hang: true,
+        nontrivial: true,
+        executions: 1,
+        violations: vec![Violation {
+            scenario: name,
+            order: crate::explore::order_name(order).to_string(),
+            choices: prefix,
+            sig: "hang".to_string(),
+            message: format!("{descr}: the job never terminates - an execution spent {silent} s of wall time without reaching a scheduling point (a task loops without touching a channel, lock, timer or thread; a step of these jobs takes microseconds)"),
+        }],
+        ..Default::default()
+    };
+    let mut out = std::io::stdout();
+    let _ = writeln!(out, "{}", serde_json::to_string(&rep).unwrap());
+    let _ = out.flush();
+    std::process::exit(0);
+}
+
 pub fn worker(spec: &PropSpec, tier: Tier) {
+    crate::rt::watchdog::start(worker_hang);
     let scenarios = scenario_list(spec, tier);
     let stdin = std::io::stdin();
     let mut out = std::io::stdout();
@@ -191,7 +217,7 @@ pub fn check(spec: &PropSpec, tier: Tier, seed: i64) -> i32 {
         let errors = errors.clone();
         let exe = exe.clone();
         let id = spec.id.to_string();
-        hs.push(std::thread::spawn(move || {
+        hs.push(std::thread::spawn(move || 'respawn: loop {
             let mut child = match Command::new(&exe)
                 .args(["worker", &id, tier.name()])
                 .stdin(Stdio::piped())
@@ -223,7 +249,18 @@ pub fn check(spec: &PropSpec, tier: Tier, seed: i64) -> i32 {
                 let mut line = String::new();
                 match cout.read_line(&mut line) {
                     Ok(n) if n > 0 => match serde_json::from_str::<ScenarioReport>(&line) {
-                        Ok(r) => results.lock().unwrap().push(r),
+                        Ok(r) => {
+                            let hang = r.hang;
+                            results.lock().unwrap().push(r);
+                            if hang {
+                                // that worker has left (its watchdog reported a hang): the rest
+                                // of the queue goes to a fresh one
+                                drop(cin);
+                                let _ = child.kill();
+                                let _ = child.wait();
+                                continue 'respawn;
+                            }
+                        }
                         Err(e) => {
                             errors.lock().unwrap().push(format!("bad worker output: {e}"));
                             break;
@@ -241,6 +278,7 @@ pub fn check(spec: &PropSpec, tier: Tier, seed: i64) -> i32 {
             let _ = writeln!(cin, "quit");
             drop(cin);
             let _ = child.wait();
+            break;
         }));
     }
     for h in hs {
@@ -424,6 +462,16 @@ pub fn fmt_ev(e: &Ev) -> String {
     format!("{:?}", e)
 }
 
+static REPLAYING: Mutex<Option<(String, String)>> = Mutex::new(None);
+
+fn replay_hang(name: String, _descr: String, _prefix: Vec<crate::rt::Point>, _order: crate::rt::Order, silent: u64) -> ! {
+    let (prop, path) = REPLAYING.lock().unwrap().clone().unwrap_or_default();
+    println!("scenario: {name}");
+    println!("replay: hang :: the job never terminates - {silent} s of wall time without reaching a scheduling point");
+    println!("VIOLATION property={} replay={}", prop, path);
+    std::process::exit(1);
+}
+
 pub fn replay(specs: &[PropSpec], path: &str) -> i32 {
     let doc: serde_json::Value = match std::fs::read_to_string(path)
         .ok()
@@ -455,6 +503,9 @@ pub fn replay(specs: &[PropSpec], path: &str) -> i32 {
         // (debugging aid: show link traffic; the choice structure does not depend on it)
         params.observe_links = true;
     }
+    *REPLAYING.lock().unwrap() = Some((prop.to_string(), path.to_string()));
+    crate::rt::watchdog::scenario(&s.name, &s.descr, !s.loop_body);
+    crate::rt::watchdog::start(replay_hang);
     let r1 = run_once(choices.clone(), order, params.clone(), s.body.clone());
     let r2 = run_once(choices, order, params, s.body.clone());
     println!("scenario: {} :: {}", s.name, s.descr);
